@@ -20,7 +20,7 @@ from pyproj.enums import TransformDirection  # noqa: E402
 
 PROP_FILE = "Properties/C01.v"
 GEN = ["GenC01"]
-RUN_FILES = ["Model/C01_run.v"]
+RUN_FILES = ["Model/C01_run.v", "Model/C01_F32.v"]
 
 U64 = 2.0 ** -53
 U32 = 2.0 ** -24
@@ -208,6 +208,25 @@ def gen_slice1(rng, n, allow_int=False):
     return [rng.choice([None, a]), rng.choice([None, b]), st]
 
 
+def gen_pair(rng, h, w):
+    """data_slice=(rows, cols); either part may be an integer index (axis dropped, numpy semantics)."""
+    return ["pair", gen_slice1(rng, h, True), gen_slice1(rng, w, True)]
+
+
+def has_int(sl):
+    return sl is not None and sl[0] == "pair" and (isinstance(sl[1], int) or isinstance(sl[2], int))
+
+
+def want_shape(sl, rows, cols):
+    """shape numpy basic indexing gives: an integer index drops its axis"""
+    if not has_int(sl):
+        return [len(rows), len(cols)]
+    return ([] if isinstance(sl[1], int) else [len(rows)]) + ([] if isinstance(sl[2], int) else [len(cols)])
+
+
+INT_KEY = "C01.coords.int_index_shape"
+
+
 def sel(n, s):
     """numpy basic indexing of an axis of length n, as an index list."""
     if s is None:
@@ -291,17 +310,17 @@ def gen_area(rng, tier_thorough, idx, force=None):
         elif k < 0.35:
             sl = ["pair", rng.randint(-h, h - 1), rng.randint(-w, w - 1)]
         else:
-            sl = ["pair", gen_slice1(rng, h), gen_slice1(rng, w)]
+            sl = gen_pair(rng, h, w)
         coords.append({"slice": sl, "chunks": None, "dtype": None})
     for _ in range(2):
-        sl = rng.choice([None, ["pair", gen_slice1(rng, h), gen_slice1(rng, w)], ["single", gen_slice1(rng, h)]])
+        sl = rng.choice([None, gen_pair(rng, h, w), ["single", gen_slice1(rng, h)]])
         coords.append({"slice": sl, "chunks": gen_chunks(rng, h, w), "dtype": None})
-    coords.append({"slice": rng.choice([None, ["pair", gen_slice1(rng, h), gen_slice1(rng, w)]]),
+    coords.append({"slice": rng.choice([None, gen_pair(rng, h, w)]),
                    "chunks": rng.choice([None, gen_chunks(rng, h, w)]), "dtype": "float32"})
     spec["coords"] = coords
     ll = [{"slice": None, "chunks": None, "dtype": None},
-          {"slice": ["pair", gen_slice1(rng, h), gen_slice1(rng, w)], "chunks": None, "dtype": None},
-          {"slice": rng.choice([None, ["pair", gen_slice1(rng, h), gen_slice1(rng, w)]]), "chunks": gen_chunks(rng, h, w), "dtype": None}]
+          {"slice": gen_pair(rng, h, w), "chunks": None, "dtype": None},
+          {"slice": rng.choice([None, gen_pair(rng, h, w)]), "chunks": gen_chunks(rng, h, w), "dtype": None}]
     if rng.random() < 0.25:
         ll.append({"slice": None, "chunks": rng.choice([None, gen_chunks(rng, h, w)]), "dtype": "float32"})
     if tier_thorough and idx % 12 == 0:
@@ -316,7 +335,7 @@ def gen_area(rng, tier_thorough, idx, force=None):
             for k in range(rng.randint(2, 5)):
                 j = rng.random()
                 if j < 0.6 or (k == 0 and j < 0.85):
-                    sl = rng.choice([None, ["pair", gen_slice1(rng, h), gen_slice1(rng, w)], ["pair", gen_slice1(rng, h), gen_slice1(rng, w)],
+                    sl = rng.choice([None, gen_pair(rng, h, w), gen_pair(rng, h, w),
                                      ["single", gen_slice1(rng, h)]])
                     ch = gen_chunks(rng, h, w) if rng.random() < 0.3 else None
                     cache = rng.random() < (0.7 if k == 0 else 0.45)
@@ -452,8 +471,13 @@ class Eval:
         self.T, self.P, self.R, _ = routes(spec["crs"])
         self.acc = self.meta.get("proj_acc", 1e-5)
         self.seen = set()
+        self.coq32 = coq.setdefault("coords32", [])
 
     # -- bookkeeping
+    def smp(self, kind_no, d):
+        """evidence samples: each kind of case is sampled from different areas"""
+        return d if int(self.meta.get("idx", 0)) % 5 == kind_no else None
+
     def fail(self, key, what, extra=None):
         if key in self.seen:
             return
@@ -489,12 +513,14 @@ class Eval:
                 return False
         return True
 
-    def check_grid(self, X, Y, rows, cols, what, key, u=U64):
+    def check_grid(self, X, Y, rows, cols, what, key, u=U64, sl=None):
         """X, Y: the driver's records of the sliced 2-D result; rows/cols: the selected indices."""
         o = self.o
         want = (len(rows), len(cols))
-        if tuple(X["shape"]) != want or tuple(Y["shape"]) != want:
-            self.fail(key + ".shape", "%s returns shape %s, expected %s" % (what, X["shape"], list(want)))
+        ws = want_shape(sl, rows, cols)
+        if X["shape"] != ws or Y["shape"] != ws:
+            self.fail(INT_KEY if has_int(sl) else key + ".shape", "%s returns shape %s, expected %s%s" % (
+                what, X["shape"], ws, " (an integer index drops its axis, as for the dask / cached / plain-array paths)" if has_int(sl) else ""))
             return None
         Xa = np.asarray(X["data"], dtype=float).reshape(want)
         Ya = np.asarray(Y["data"], dtype=float).reshape(want)
@@ -567,7 +593,10 @@ class Eval:
             if f32:
                 if res[0]["dtype"] != "float32":
                     self.fail("C01.vectors.dtype", "get_proj_vectors(dtype=float32) returns %s" % res[0]["dtype"])
-                self.check_vec(res[0]["data"], res[1]["data"], "get_proj_vectors(%r)" % rq, U32)
+                if self.check_vec(res[0]["data"], res[1]["data"], "get_proj_vectors(%r)" % rq, U32) and rq.get("chunks") is None:
+                    ctx.count("float32_bit_exact_vectors")
+                    self.coq32.append("(%s, %s, %s, [%s], [%s])" % (A, zlist(range(h)), zlist(range(w)),
+                                                                    "; ".join(fhex(v) for v in res[0]["data"]), "; ".join(fhex(v) for v in res[1]["data"])))
             elif not (same_list(res[0]["data"], xs) and same_list(res[1]["data"], ys)):
                 # float64 dask vectors: the property allows rounding differences only; bitwise equality is what the model predicts
                 if self.check_vec(res[0]["data"], res[1]["data"], "get_proj_vectors(%r)" % rq):
@@ -578,24 +607,33 @@ class Eval:
             ctx.count("coords_" + kind)
             what = "get_proj_coords(data_slice=%r, chunks=%r, dtype=%r)" % (rq.get("slice"), rq.get("chunks"), rq.get("dtype"))
             if "error" in res:
-                self.fail("C01.coords.error", "%s raised %s" % (what, res))
+                self.fail(INT_KEY if has_int(rq.get("slice")) else "C01.coords.error", "%s raised %s" % (what, res))
                 continue
             rows, cols = self.rows_cols(rq.get("slice"))
             X, Y = res["xy"]
             ctx.case(("coords", self.spec["crs"], tuple(bits(v) for v in self.spec["extent"]), h, w, repr(rq)),
                      nontrivial=rq.get("slice") is not None or rq.get("chunks") is not None,
-                     sample={"get_proj_coords": {"data_slice": rq.get("slice"), "chunks": rq.get("chunks"), "dtype": rq.get("dtype"), "shape": [h, w]},
-                             "impl_shape": X["shape"], "impl_norm_chunks": res.get("norm_chunks")})
+                     sample=self.smp(1, {"get_proj_coords": {"data_slice": rq.get("slice"), "chunks": rq.get("chunks"), "dtype": rq.get("dtype"), "shape": [h, w]},
+                             "impl_shape": X["shape"], "impl_norm_chunks": res.get("norm_chunks")}))
             is_dask = rq.get("chunks") is not None
             if (X["kind"] == "dask") != is_dask:
                 self.fail("C01.coords.kind", "%s returns a %s array" % (what, X["kind"]))
             f32 = rq.get("dtype") == "float32"
             if X["dtype"] != ("float32" if f32 else "float64"):
                 self.fail("C01.coords.dtype", "%s returns dtype %s" % (what, X["dtype"]))
-            g = self.check_grid(X, Y, rows, cols, what, "C01.coords." + ("dask" if is_dask else "numpy"), U32 if f32 else U64)
-            if g is None or f32:
+            g = self.check_grid(X, Y, rows, cols, what, "C01.coords." + ("dask" if is_dask else "numpy"), U32 if f32 else U64, rq.get("slice"))
+            if g is None:
                 continue
             Xa, Ya = g
+            if f32:
+                # float32: bit-exact through the marginals; the arrays must be bitwise the mesh of them
+                if len(rows) and len(cols):
+                    ctx.count("float32_bit_exact_coords")
+                    if not all(same(Xa[i, j], Xa[0, j]) and same(Ya[i, j], Ya[i, 0]) for i in range(len(rows)) for j in range(len(cols))):
+                        self.ctx.broken.append(("correspondence:coords_f32_mesh", "%s is not bitwise a mesh of its first row / first column" % what))
+                    self.coq32.append("(%s, %s, %s, [%s], [%s])" % (A, zlist(rows), zlist(cols), "; ".join(fhex(v) for v in Xa[0, :]),
+                                                                    "; ".join(fhex(v) for v in Ya[:, 0])))
+                continue
             smp = self.samples(len(rows), len(cols))
             stxt = "[" + "; ".join("(%d, %d, %s, %s)" % (i, j, fhex(Xa[i, j]), fhex(Ya[i, j])) for i, j in smp) + "]"
             if is_dask:
@@ -668,8 +706,8 @@ class Eval:
                         self.fail("C01.index.nonfinite", "non-finite coordinate (%r,%r) is not masked: col mask %s, row mask %s" % (x, y, cm, rm))
                 ctx.case(("pt", self.spec["crs"], tuple(bits(v) for v in self.spec["extent"]), h, w, bits(x), bits(y)),
                          nontrivial=kd[0].startswith(("band", "border", "edge")) or kd[1].startswith(("band", "border", "edge")),
-                         sample={"lookup": {"x": x, "y": y, "kind": list(kd), "shape": [h, w], "extent": self.spec["extent"]},
-                                 "impl": {"col": cd, "col_masked": cm, "row": rd, "row_masked": rm}})
+                         sample=self.smp(2, {"lookup": {"x": x, "y": y, "kind": list(kd), "shape": [h, w], "extent": self.spec["extent"]},
+                                 "impl": {"col": cd, "col_masked": cm, "row": rd, "row_masked": rm}}))
                 L.append("(%s, %s, %d, %s, %d, %s)" % (fhex(x), fhex(y), cd, "true" if cm else "false", rd, "true" if rm else "false"))
             self.coq["index_array"].append("(%s, [%s])" % (A, "; ".join(L)))
             L = []
@@ -696,9 +734,10 @@ class Eval:
         # ---------------- lon/lat
         self.lonlat(A, xs, ys, ok)
         self.histories(A, xs, ys, ok)
+        self.aliases()
         ctx.case(("area", spec["crs"], tuple(bits(v) for v in spec["extent"]), h, w), nontrivial=nontriv,
-                 sample={"area": {"crs": self.name, "extent": spec["extent"], "shape": [h, w], "mode": self.meta["mode"], "flip": self.meta["flip"]},
-                         "impl_upper_left_pixel": at["pixel_upper_left"]})
+                 sample=self.smp(0, {"area": {"crs": self.name, "extent": spec["extent"], "shape": [h, w], "mode": self.meta["mode"], "flip": self.meta["flip"]},
+                         "impl_upper_left_pixel": at["pixel_upper_left"]}))
         ctx.count("crs_" + self.name)
         ctx.count("extent_" + self.meta["mode"])
         ctx.count("flip_%s" % self.meta["flip"])
@@ -729,6 +768,34 @@ class Eval:
                         return True
         return False
 
+    def aliases(self):
+        """Deprecated / alternative entry points must be the same accessors (bitwise the same results)."""
+        obs = self.obs
+        al = obs.get("aliases") or {}
+
+        def same_arrays(a, b):
+            return isinstance(a, list) and isinstance(b, list) and all(
+                x["shape"] == y["shape"] and same_list(flat(x["data"]), flat(y["data"])) for x, y in zip(a, b))
+
+        def same_masked(a, b):
+            return isinstance(a, list) and isinstance(b, list) and all(
+                x["mask"] == y["mask"] and all(p == q or m for p, q, m in zip(x["data"], y["data"], x["mask"])) for x, y in zip(a, b))
+        pairs = [("get_proj_vectors_dask", obs.get("vec"), same_arrays),
+                 ("get_proj_coords_dask", (obs["coords"][0] or {}).get("xy") if obs.get("coords") else None, same_arrays),
+                 ("get_lonlats_dask", (obs["lonlats"][0] or {}).get("ll") if obs.get("lonlats") else None, same_arrays),
+                 ("get_xy_from_proj_coords", obs.get("idx_of_proj"), same_masked),
+                 ("get_xy_from_lonlat", obs.get("idx_of_lonlat"), same_masked)]
+        for name, primary, eq in pairs:
+            got = al.get(name)
+            if got is None or not isinstance(primary, list):
+                continue
+            self.ctx.count("alias_" + name)
+            if isinstance(got, dict) or not eq(got, primary):
+                self.fail("C01.alias." + name, "%s() does not return what the accessor it stands for returns: %s" % (
+                    name, got if isinstance(got, dict) else "values/shape/mask differ"))
+            elif name.endswith("_dask") and got[0]["kind"] != "dask":
+                self.fail("C01.alias." + name, "%s() returns a %s array" % (name, got[0]["kind"]))
+
     def histories(self, A, xs, ys, vec_ok):
         """After EVERY step of every call history on one object, the result must be the canonical map."""
         ctx, spec, obs, o = self.ctx, self.spec, self.obs, self.o
@@ -758,19 +825,21 @@ class Eval:
                 ctx.count("history_" + acc + ("_cache" if op.get("cache") else ""))
                 ctx.case(("hist", spec["crs"], tuple(bits(v) for v in spec["extent"]), h, w, repr(hist[:k + 1])),
                          nontrivial=k > 0 and any(q.get("cache") for q in hist[:k]),
-                         sample={"history": [self.op_str(q) for q in hist[:k + 1]], "shape": [h, w], "crs": self.name,
-                                 "impl": st.get("value") or (st.get("ll") or [{}])[0].get("shape") or st})
+                         sample=self.smp(4, {"history": [self.op_str(q) for q in hist[:k + 1]], "shape": [h, w], "crs": self.name,
+                                 "impl": st.get("value") or (st.get("ll") or [{}])[0].get("shape") or st}))
                 key = self.ll_key("history." + acc, acc == "colrow2lonlat") if self.cls == "derived_geographic" else "C01.lonlat.history." + acc
                 if "error" in st:
-                    self.fail(key, "%s raised %s" % (what, st), {"history": hist, "step": k})
+                    self.fail(INT_KEY if (has_int(op.get("slice")) and st.get("error") == "AttributeError") else key, "%s raised %s" % (what, st), {"history": hist, "step": k})
                     good = False
                     break
                 if acc == "get_lonlats":
                     rows, cols = self.rows_cols(op.get("slice"))
                     LO, LA = st["ll"]
                     want = [len(rows), len(cols)]
-                    if LO["shape"] != want or LA["shape"] != want:
-                        self.fail(key, "%s returns shape %s, the selected grid has shape %s" % (what, LO["shape"], want), {"history": hist, "step": k})
+                    ws = want_shape(op.get("slice"), rows, cols)
+                    if LO["shape"] != ws or LA["shape"] != ws:
+                        int_only = has_int(op.get("slice")) and sorted(d for d in LO["shape"] if d != 1) == sorted(d for d in ws if d != 1)
+                        self.fail(INT_KEY if int_only else key, "%s returns shape %s, the selected grid has shape %s" % (what, LO["shape"], ws), {"history": hist, "step": k})
                         good = False
                         break
                     lo = np.asarray(LO["data"], dtype=float).reshape(want)
@@ -889,17 +958,18 @@ class Eval:
             what = "get_lonlats(data_slice=%r, chunks=%r, dtype=%r%s)" % (rq.get("slice"), rq.get("chunks"), rq.get("dtype"), ", nprocs=2" if rq.get("nprocs") else "")
             ctx.count("lonlats_" + ("dask" if rq.get("chunks") is not None else "nprocs2" if rq.get("nprocs") else "numpy") + ("_f32" if rq.get("dtype") else "") + ("_sliced" if rq.get("slice") else ""))
             if "error" in res:
-                self.fail("C01.lonlats.error", "%s raised %s" % (what, res))
+                self.fail(INT_KEY if has_int(rq.get("slice")) else "C01.lonlats.error", "%s raised %s" % (what, res))
                 continue
             rows, cols = self.rows_cols(rq.get("slice"))
             LO, LA = res["ll"]
             ctx.case(("lonlats", self.spec["crs"], tuple(bits(v) for v in self.spec["extent"]), h, w, repr(rq)),
                      nontrivial=rq.get("slice") is not None or rq.get("chunks") is not None or bool(rq.get("nprocs")),
-                     sample={"get_lonlats": {"data_slice": rq.get("slice"), "chunks": rq.get("chunks"), "dtype": rq.get("dtype"), "crs": self.name, "shape": [h, w]},
-                             "impl_shape": LO["shape"]})
+                     sample=self.smp(3, {"get_lonlats": {"data_slice": rq.get("slice"), "chunks": rq.get("chunks"), "dtype": rq.get("dtype"), "crs": self.name, "shape": [h, w]},
+                             "impl_shape": LO["shape"]}))
             want = [len(rows), len(cols)]
-            if LO["shape"] != want or LA["shape"] != want:
-                self.fail("C01.lonlats.shape", "%s returns shape %s, expected %s" % (what, LO["shape"], want))
+            ws = want_shape(rq.get("slice"), rows, cols)
+            if LO["shape"] != ws or LA["shape"] != ws:
+                self.fail(INT_KEY if has_int(rq.get("slice")) else "C01.lonlats.shape", "%s returns shape %s, expected %s" % (what, LO["shape"], ws))
                 continue
             f32 = rq.get("dtype") == "float32"
             if LO["dtype"] != ("float32" if f32 else "float64"):
@@ -1109,7 +1179,21 @@ HDR = ("From Coq Require Import ZArith List Bool PrimFloat.\n"
 GEN_CHK = ("Definition chk_gen_arr (c : area float * list (float * float * float * float)) : bool := let '(a, pts) := c in "
            "forallb (fun p => let '(x, y, cf, rf) := p in ff_eqb (gen01_array_coordinates_from_projection_coordinates F64 a x y) (cf, rf)) pts.\n"
            "Definition chk_gen_proj (c : area float * list (float * float * float * float)) : bool := let '(a, pts) := c in "
-           "forallb (fun p => let '(cf, rf, x, y) := p in ff_eqb (gen01_projection_coordinates_from_array_coordinates F64 a cf rf) (x, y)) pts.\n")
+           "forallb (fun p => let '(cf, rf, x, y) := p in ff_eqb (gen01_projection_coordinates_from_array_coordinates F64 a cf rf) (x, y)) pts.\n"
+           "Definition gen_init (a : area float) := gen01_init F64 (width a) (height a) (xmin a, ymin a, xmax a, ymax a).\n"
+           "Definition chk_gen_init (c : area float * list float) : bool := let '(a, obs) := c in "
+           "let '(psx, psy, ul, ox, oy) := gen_init a in list_eqb same_bits [psx; psy; fst ul; snd ul; ox; oy] obs.\n"
+           "Definition chk_gen_vec (c : area float * list float * list float) : bool := let '(a, xs, ys) := c in "
+           "let '(psx, psy, ul, _, _) := gen_init a in "
+           "list_eqb same_bits (map (fun k => fst (gen01_proj_vector_elements F64 (psx, psy) ul k 0)) (c01_range 0 (width a))) xs && "
+           "list_eqb same_bits (map (fun k => snd (gen01_proj_vector_elements F64 (psx, psy) ul 0 k)) (c01_range 0 (height a))) ys.\n"
+           "Definition gen_axis_ok (v : float) (d d' : Z) (m m' : bool) : bool := Bool.eqb m m' && (f_isnan v || (d =? d')).\n"
+           "Definition chk_gen_idx (c : area float * list (float * float * Z * bool * Z * bool)) : bool := let '(a, pts) := c in "
+           "forallb (fun p => let '(x, y, cd, cm, rd, rm) := p in "
+           "let '(cf, rf) := gen01_array_coordinates_from_projection_coordinates F64 a x y in "
+           "let '(cd', rd', cm', rm') := gen01_masked_ints F64 a cf rf in gen_axis_ok cf cd' cd cm' cm && gen_axis_ok rf rd' rd rm' rm) pts.\n")
+GEN_EVALS = [("coords32", "chk_coords32"), ("arr_of_proj", "chk_gen_arr"), ("proj_of_arr", "chk_gen_proj"), ("attrs", "chk_gen_init"), ("vectors", "chk_gen_vec"),
+             ("index_array", "chk_gen_idx")]
 CHK = {"attrs": "chk_attrs", "vectors": "chk_vectors", "coords_numpy": "chk_coords_numpy", "coords_dask": "chk_coords_dask",
        "arr_of_proj": "chk_arr_of_proj", "proj_of_arr": "chk_proj_of_arr", "index_array": "chk_index_array",
        "index_scalar": "chk_index_scalar", "lonlat": "chk_lonlat", "history": "chk_history"}
@@ -1131,20 +1215,26 @@ def evaluate(ctx, specs):
 
 
 def run(ctx):
-    ctx.rule = ("areas = CRS pool (%d CRSs incl. one Bound CRS and one rotated-pole CRS on purpose) x extent style (dyadic lattice / arbitrary / round "
-                "numbers / tiny pixels far from the origin / extreme aspect) x shape 1..60 (1xN, Nx1, 1x1 included) x y- or x-flipped extents; per area: "
-                "vectors (numpy, dask, float32), get_proj_coords whole / data_slice (ints, slices with steps, negative and out-of-range bounds) / "
-                "ragged and 1-element dask chunks / float32, affine conversions on points built from exact fractional-index targets (centres, "
-                "cell borders, the eps tolerance band at both outer edges: inside, on the limit, outside; +-1 ulp), array and scalar integer "
-                "lookups incl. a malformed stream (NaN, inf, 1e30), every lon/lat accessor, lon/lat -> projection/array/index round trips. "
-                "Cases counted: one per area, per get_proj_coords/get_lonlats request and per lookup point. Non-trivial: an area with a multi-block "
-                "dask request or a border/band point; a request with a data_slice, chunks or nprocs; a lookup point on a cell border, an outer "
-                "edge or in the tolerance band. distinct = distinct (CRS, extent bits, shape[, request | point bits])" % len(POOL))
+    ctx.rule = ("Generation (all from VERIF_SEED): areas = CRS pool (%d CRSs: longlat, eqc, merc, stere N/S, laea, lcc, tmerc, geos, +pm, sphere, km units, "
+                "3 EPSG codes, ortho, ob_tran/eqc, plus one Bound CRS and one rotated-pole geographic CRS on purpose; the first 2x%d areas walk the pool, "
+                "the rest draw from it) x extent style (dyadic lattice / arbitrary / round numbers / tiny pixels far from the origin / extreme aspect) "
+                "x shape 1..60 (1xN, Nx1, 1x1 included) x 15%% y-flipped, 5%% x-flipped extents. Per area: 1-D vectors (numpy, dask, float32, "
+                "deprecated *_dask aliases); get_proj_coords and get_lonlats whole / data_slice (integer indices, slices with steps, negative and "
+                "out-of-range bounds, rows-only slice) / ragged and 1-element dask chunk tuples / float32 (/ nprocs=2 in the thorough tier); both affine "
+                "conversions and array + scalar integer lookups on points built from exact fractional-index targets (centres, cell borders, both "
+                "outer edges, the eps tolerance band inside / on the limit / outside, +-1 ulp, half a pixel and far outside) plus a malformed stream "
+                "(NaN, inf, 1e30); every lon/lat accessor and the lon/lat -> projection / array / index round trips; deprecated entry points; and "
+                "1-2 call HISTORIES (2-5 PRNG steps of get_lonlats with cache=True/False, slices, chunks, get_lonlat, colrow2lonlat) on one object. "
+                "Cases counted: one per area, per get_proj_coords/get_lonlats request, per lookup point and per history prefix. Non-trivial: an area "
+                "with a multi-block dask request or a border/band point; a request with a data_slice, chunks or nprocs; a lookup point on a cell "
+                "border, an outer edge or in the tolerance band; a history step taken after an earlier cache=True call. distinct = distinct "
+                "(CRS, extent bits, shape[, request | point bits | history prefix]). Nothing is enumerated exhaustively." % (len(POOL), len(POOL)))
     rng = ctx.rng
     n = ctx.n(96, 1500)
     specs = [gen_area(rng, ctx.thorough, i) for i in range(n)]
     correspond(ctx, evaluate(ctx, specs))
-    ctx.notes.append("float32 results (dtype=float32) are observed against the exact map with a float32 tolerance; they are not modelled bit-exactly")
+    ctx.notes.append("float32 projection vectors / coordinates are modelled bit-exactly (Model/C01_F32.v: binary64 operation then rounding to "
+                     "binary32); float32 lon/lats are observed against the reference with a float32 tolerance only")
     ctx.notes.append("lon/lat: PROJ is an oracle; the model is evaluated with finite tables produced by pyproj on the coordinate bits; "
                      "theorem C01_lonlat_roundtrip assumes H_roundtrip, H_same, H_dom")
 
@@ -1159,23 +1249,28 @@ def correspond(ctx, per_area, shard=12):
         for kind in kinds:
             ls = [l for c in part for l in c[kind]]
             lines[kind] = ls
-            body.append("Definition cases_%s := [%s].\nEval vm_compute in (bad %s cases_%s).\n" % (kind, ";\n".join(ls), CHK[kind], kind))
+            # the list is written inline so that an empty one still type-checks
+            body.append("Eval vm_compute in (bad %s [%s]).\n" % (CHK[kind], ";\n".join(ls)))
         texts.append(("c01_cases_%03d" % (k // shard), HDR + "".join(body), lines))
     # the definitions regenerated from the current source (coq/Gen/GenC01.v), on all affine points
-    g1 = [l for c in per_area for l in c["arr_of_proj"]]
-    g2 = [l for c in per_area for l in c["proj_of_arr"]]
     gen_files = []
-    for k in range(0, len(g1), 400):
-        gen_files.append(("c01_gen_%03d" % (k // 400), HDR.replace("Model.C01_run.", "Model.C01_run Gen.GenC01.") + GEN_CHK +
-                          "Definition c1 := [%s].\nEval vm_compute in (bad chk_gen_arr c1).\nDefinition c2 := [%s].\nEval vm_compute in (bad chk_gen_proj c2).\n" % (
-                              ";\n".join(g1[k:k + 400]), ";\n".join(g2[k:k + 400]))))
+    GS = 60
+    for k in range(0, len(per_area), GS):
+        part = per_area[k:k + GS]
+        body = ""
+        for kind, chk in GEN_EVALS:
+            body += "Eval vm_compute in (bad %s [%s]).\n" % (chk, ";\n".join(l for c in part for l in c[kind]))
+        gen_files.append(("c01_gen_%03d" % (k // GS), HDR.replace("Model.C01_run.", "Model.C01_run Model.C01_F32 Gen.GenC01.") + GEN_CHK + body))
     res = ctx.coq_eval_many([(nm, t) for nm, t, _ in texts] + gen_files)
     for nm, _ in gen_files:
         out, ok = res[nm]
         vals = evals(out) if ok else []
-        if not ok or len(vals) != 2 or any(re.findall(r"\d", v) for v in vals):
-            ctx.broken.append(("correspondence:generated_affine", "the regenerated affine conversions (Gen/GenC01.v) and the implementation differ or do not evaluate (%s): %s" % (
-                nm, (" | ".join(vals) if vals else out[-300:])[:400])))
+        if not ok or len(vals) != len(GEN_EVALS):
+            ctx.broken.append(("correspondence:generated", "the definitions regenerated from the source (Gen/GenC01.v) do not evaluate (%s): %s" % (nm, out[-300:])))
+            continue
+        for (kind, chk), v in zip(GEN_EVALS, vals):
+            if re.findall(r"\d", v):
+                ctx.broken.append(("correspondence:generated_" + kind, "regenerated definition (%s) and the implementation differ in %s on cases %s" % (chk, nm, v[:200])))
     for nm, _, lines in texts:
         out, ok = res[nm]
         vals = evals(out) if ok else []
